@@ -72,7 +72,7 @@ def ctx_sexp(callables=()):
     classes = [[Sym('cls'), name] + [[a, Sym(t), Sym('T') if r else Sym('F')] for a, t, r in attrs]
                for name, attrs in CLASSES]
     assocs = [[Sym('assoc'), rel, sc, tc, sph, tph, Sym('T') if 'M' in scard else Sym('F'),
-               Sym('T') if 'M' in tcard else Sym('F')]
+               Sym('T') if 'M' in tcard else Sym('F'), [skey], [tkey]]
               for rel, sc, scard, skey, sph, tc, tcard, tkey, tph in ASSOCS]
     return [Sym('ctx'), [Sym('classes')] + classes, [Sym('assocs')] + assocs, [Sym('callables')] + list(callables)]
 
@@ -392,7 +392,7 @@ class ProgGen(object):
     def __init__(self, rng, max_stmts=25, max_depth=3, params=(), calls=(), self_cls=None, derived=(),
                  allow_delete=True, allow_mutation=True, enums=(), consts=(), var_prefix='', schema=None,
                  ret_ty='any', rec_call=None, derived_attr=None, create_in_loops=True, max_call_sites=99,
-                 big_ints=0.05, derived_chain=None):
+                 big_ints=0.05, derived_chain=None, derived_nav=False):
         self.rng = rng
         schema = schema or DEFAULT_SCHEMA
         self.classes = schema['classes']          # {class: [(attr, ty, referential)]}
@@ -407,6 +407,7 @@ class ProgGen(object):
         self.foreach_depth = 0
         self.big_ints = big_ints                  # probability of a literal beyond 2**53 where an integer literal is generated
         self.derived_chain = derived_chain        # (attribute, helper operation or None): read it on ANOTHER instance
+        self.derived_nav = derived_nav            # the derivation reads the instances related to self
         self.budget = max_stmts
         self.max_depth = max_depth
         self.params = list(params)            # [(name, ty)]
@@ -694,6 +695,23 @@ class ProgGen(object):
             prelude += [['assign', n1, ['attr', ['self'], 'n']], ['assign', n2, ['attr', ['self'], 's']]]
             self.declare(n1, V('integer', frozen=True))
             self.declare(n2, V('string', frozen=True))
+        if self.derived_nav and self.edges:
+            # the value depends on the LINK STORE: the attributes of the instance(s) related to self
+            e = self.rng.choice([e for e in self.edges if e[0] == self.self_cls])
+            v = self.fresh('i')
+            prelude.append(['assign', v, ['int', 0]])
+            if e[4]:
+                ps, p = self.fresh(e[1].lower() + 's'), self.fresh(e[1].lower())
+                prelude.append(['select_rel', 'many', ps, ['self'], [[e[1], e[2], e[3]]], None])
+                prelude.append(['foreach', p, ps, [['assign', v, ['bin', '+', ['bin', '*', ['var', v], ['int', 3]], ['attr', ['var', p], 'n']]]]])
+                self.declare(ps, V('set', e[1]))
+            else:
+                p = self.fresh(e[1].lower())
+                prelude.append(['select_rel', self.rng.choice(['one', 'any']), p, ['self'], [[e[1], e[2], e[3]]], None])
+                prelude.append(['if', ['un', 'not_empty', ['var', p]],
+                                [['assign', v, ['bin', '+', ['attr', ['var', p], 'n'], ['int', 1]]]], [], None])
+                self.declare(p, V('inst', e[1], ne=False))
+            self.declare(v, V('integer', frozen=True))
         if self.derived_chain is not None:
             # the same-named derived attribute of ANOTHER instance (the one whose n is one less: the chain ends),
             # read directly or through an operation; optionally after this walker has a pending value of its own
@@ -858,6 +876,10 @@ class ProgGen(object):
             choices += [('setattr', 12)]
             if self.assoc:
                 choices += [('relate', 8), ('unrelate', 9), ('create_relate', 4)]
+        if self.assoc:
+            choices += [('refread', 5)]
+        if self.params:
+            choices += [('param_shadow', 6)]
             if self.allow_delete:
                 choices += [('delete', 7), ('delete_sel', 5)]
         if self.calls:
@@ -1225,6 +1247,60 @@ class ProgGen(object):
             return self.guard_ne([l], pre[:1] + [['if', ['un', 'not_empty', ['var', ta]], [['unrelate', l, ta, 'R4', '']], [], None]])
         self.declare(tx, V('inst', 'X', False))
         return self.guard_ne([l], pre[1:] + [['if', ['un', 'not_empty', ['var', tx]], [['unrelate', tx, l, 'R4', '']], [], None]])
+
+    def st_param_shadow(self, depth):
+        """parameters and local variables are separate namespaces: a LOCAL variable named like a parameter is assigned a
+        value different from the argument, and `param.<name>` is read afterwards"""
+        r = self.rng
+        cnames = set(c for c, _ in self.consts)
+        cands = [(n, t) for n, t in self.params if t in ('integer', 'string', 'boolean') and n not in cnames
+                 and (self.lookup(n) is None or (self.lookup(n).ty == t and not self.lookup(n).frozen))]
+        if not cands:
+            return None
+        n, t = r.choice(cands)
+        first = self.lookup(n) is None
+        if t == 'integer':
+            e = r.choice([['bin', '*', ['param', n], ['int', 2]], ['bin', '-', ['param', n], ['int', 1]],
+                          ['bin', '+', self._int(1, True, ()), ['int', 7]]])
+            if not first and r.random() < 0.5:
+                e = ['bin', '-', ['var', n], ['int', 1]]
+            probe_ty, probe = 'integer', ['bin', '+', ['bin', '*', ['param', n], ['int', 100]], ['var', n]]
+        elif t == 'string':
+            e = ['bin', '+', ['param', n], ['str', r.choice(['#', 'zz'])]]
+            probe_ty, probe = 'string', ['bin', '+', ['bin', '+', ['param', n], ['str', '/']], ['var', n]]
+        else:
+            e = ['un', 'not', ['param', n]]
+            probe_ty, probe = 'boolean', ['bin', '==', ['param', n], ['var', n]]
+        self.declare(n, V(t))
+        pv = self.fresh({'integer': 'i', 'string': 's', 'boolean': 'f'}[probe_ty])
+        self.declare(pv, V(probe_ty))
+        return [['assign', n, e], ['assign', pv, probe]]
+
+    # referential attributes: (class, attribute, rel, phrase towards the referred class, referred class)
+    REFS = [('B', 'A1_ID', 'R1', '', 'A'), ('B', 'A2_ID', 'R2', '', 'A'), ('X', 'Next_ID', 'R3', 'next', 'X'),
+            ('L', 'A_ID', 'R4', '', 'A'), ('L', 'X_ID', 'R4', '', 'X')]
+
+    def st_refread(self, depth):
+        """a referential attribute reads as the identifier of the related instance (nothing when there is none)"""
+        r = self.rng
+        cls, attr, rel, ph, tcls = r.choice(self.REFS)
+        hs = self.usable_insts(cls)
+        if not hs:
+            return None
+        b = r.choice(hs)
+        if depth > 0 and r.random() < 0.15:
+            return [['return', ['attr', ['var', b], attr]]], True
+        t, f = self.fresh(tcls.lower()), self.fresh('f')
+        out = [['assign', f, ['bool', False]],
+               ['select_rel', 'one', t, ['var', b], [[tcls, rel, ph]], None]]
+        self.declare(f, V('boolean'))
+        self.declare(t, V('inst', tcls, False))
+        read = ['attr', ['var', b], attr]
+        inner = [['assign', f, ['bin', '==', read, ['attr', ['var', t], 'ID']]]]
+        if tcls == 'A' and self.allow_mutation and r.random() < 0.5:
+            inner.append(['setattr', ['var', t], 'tag', read])
+        out.append(['if', ['un', 'not_empty', ['var', t]], inner, [], None])
+        return out
 
     def st_arith_guard(self, depth):
         """division and remainder by a VARIABLE, guarded in the program"""
